@@ -12,6 +12,8 @@ BENIGN = os.path.join(ROOT, "benign")
 SNAP = tempfile.mkdtemp(prefix="pvc_benign_snap_")
 subprocess.run(["rsync", "-a", "--exclude", ".venv", "--exclude", "out", "--exclude", ".git", "--exclude", "mutation", ROOT + "/", SNAP + "/"], check=True)
 ROOT = SNAP
+REPO_SNAP = tempfile.mkdtemp(prefix="pvc_benign_repo_")
+subprocess.run("git -C /repo archive HEAD ptera | tar -x -C " + REPO_SNAP, shell=True, check=True)  # committed tree at the start of the run
 props = [c["property_id"] for c in json.load(open(os.path.join(ROOT, "MANIFEST.json")))["checks"]]
 rows = []
 for d in sorted(os.listdir(BENIGN)):
@@ -19,7 +21,7 @@ for d in sorted(os.listdir(BENIGN)):
         continue
     tmp = tempfile.mkdtemp(prefix="pvc_benign_")
     try:
-        subprocess.run("git -C /repo archive HEAD ptera | tar -x -C " + tmp, shell=True, check=True)  # committed tree: the working tree of /repo may be carrying a seeded patch
+        shutil.copytree(os.path.join(REPO_SNAP, "ptera"), os.path.join(tmp, "ptera"))
         p = subprocess.run(["patch", "-p1", "-s", "-d", tmp, "-i", os.path.join(BENIGN, d)], capture_output=True, text=True)
         if p.returncode != 0:
             rows.append((d, "does-not-apply", []))
@@ -39,3 +41,4 @@ for d in sorted(os.listdir(BENIGN)):
         shutil.rmtree(tmp, ignore_errors=True)
 json.dump(rows, open(REPORT, "w"), indent=1)
 shutil.rmtree(SNAP, ignore_errors=True)
+shutil.rmtree(REPO_SNAP, ignore_errors=True)
